@@ -356,3 +356,18 @@ _EXTRA5 = {
 }
 for _k, _v in _EXTRA5.items():
     CLAIMED[_k]["text"] = CLAIMED[_k]["text"].rstrip() + " " + _v.strip()
+
+
+# clauses added after the sixth round of seeded changes
+_EXTRA6 = {
+    "C05": "Also (round 6): owned per-opcode signature lists are copied field by field (shared C01.8).",
+    "C09": "Also (round 6): exact accepting path of parse_coin_spend; Program::from_clvm = node_to_bytes(node), to_clvm = node_from_bytes (C09.1/C09.3).",
+    "C10": "Also (round 6): one running spend list per add attempt (spend_list = cons(item, spend_list)) in both builders, committed as a whole.",
+    "C12": "Also (round 6): generate_proof forwards lookup errors (exact table); merkle_set::hash is a single unconditional SHA-256.",
+    "C13": "Also (round 6): every nested decode inside a parse body is propagated with `?` or is the tail result (544 calls).",
+    "C14": "Also (round 6): nested decode errors propagate (shared C13.3); trust-dependent decoding only at the enumerated sites (shared C13.4).",
+    "C16": "Also (round 6): == of PublicKey / Signature / GTElement / SecretKey is the blst (scalar) comparison, unconditionally (C16.5); G2 single "
+           "accepting path and TRUSTED sites shared with C13.",
+}
+for _k, _v in _EXTRA6.items():
+    CLAIMED[_k]["text"] = CLAIMED[_k]["text"].rstrip() + " " + _v.strip()
